@@ -5,7 +5,7 @@ PATCH=$(readlink -f "$1"); shift
 T=$(mktemp -d /tmp/vfscratch.XXXXXX)
 trap 'rm -rf "$T"' EXIT
 mkdir -p "$T/repo"
-(cd /repo && git ls-files -z | xargs -0 cp --parents -t "$T/repo")
+(cd /repo && git ls-files -z | xargs -0 cp --parents -t "$T/repo" && cp Cargo.lock "$T/repo/" 2>/dev/null || true)
 (cd "$T/repo" && patch -p1 -s < "$PATCH")
 cd /verif
 VERIF_REPO="$T/repo" "$@"
